@@ -15,7 +15,8 @@ META = dict(
             "listed in SEQS incl. spaces and a '*' terminator and all permutations of a multiset; ambiguity codes of 2 and 3 "
             "members; the three formula prefixes; read_fasta on lists of <= 4 lines of <= 3 characters (CrossHair)"),
     outside="the chemical formulas and volumes of the tabulated residues themselves (data); sequences longer than 4 codes",
-    stubs="np.maximum / abs as if-then-else terms (the SLD computed by Molecule is not part of the claims)",
+    stubs=("np.maximum / abs as if-then-else terms (the SLD that Molecule computes on the way is not part of the claims, so the "
+           "sqrt-domain obligations of that computation are not discharged here; C03/C17 do)"),
     assumptions=["floats as exact reals", "residue counts > 0, cell volumes > 0"],
 )
 
@@ -254,15 +255,15 @@ def cases(tier):
     out = []
     chunks = [SEQS[:4], SEQS[4:8], SEQS[8:]]
     for i, ch_ in enumerate(chunks):
-        out.append(Case('sequence[aa|%d]' % i, _sequence_case('aa', ch_), max_paths=64, timeout_ms=30000, nsamples=1, mode=mode, budget_s=400))
-    out.append(Case('sequence[dna|0]', _sequence_case('dna', SEQS[1:4]), max_paths=64, timeout_ms=30000, nsamples=1, mode=mode, budget_s=400))
+        out.append(Case('sequence[aa|%d]' % i, _sequence_case('aa', ch_), max_paths=64, timeout_ms=30000, nsamples=1, mode=mode, domain_checks=False, budget_s=400))
+    out.append(Case('sequence[dna|0]', _sequence_case('dna', SEQS[1:4]), max_paths=64, timeout_ms=30000, nsamples=1, mode=mode, domain_checks=False, budget_s=400))
     if th:
-        out.append(Case('sequence[rna|0]', _sequence_case('rna', SEQS[:5]), max_paths=64, timeout_ms=30000, nsamples=1, mode=mode, budget_s=900))
-        out.append(Case('sequence[dna|1]', _sequence_case('dna', SEQS[4:]), max_paths=64, timeout_ms=30000, nsamples=1, mode=mode, budget_s=900))
+        out.append(Case('sequence[rna|0]', _sequence_case('rna', SEQS[:5]), max_paths=64, timeout_ms=30000, nsamples=1, mode=mode, domain_checks=False, budget_s=900))
+        out.append(Case('sequence[dna|1]', _sequence_case('dna', SEQS[4:]), max_paths=64, timeout_ms=30000, nsamples=1, mode=mode, domain_checks=False, budget_s=900))
     for ms in (['AAC', 'ACD'] if not th else ['AAC', 'ACD', 'AACD', 'ACCD']):
-        out.append(Case('permutations[%s]' % ms, _permutation_case(ms), max_paths=64, timeout_ms=30000, nsamples=1, mode=mode, budget_s=600 if not th else 1400))
+        out.append(Case('permutations[%s]' % ms, _permutation_case(ms), max_paths=64, timeout_ms=30000, nsamples=1, mode=mode, domain_checks=False, budget_s=600 if not th else 1400))
     for mem in (['AC', 'ACD'] if not th else ['AC', 'ACD', 'CD']):
-        out.append(Case('ambiguity[%s]' % mem, _ambiguity_case(mem), max_paths=64, timeout_ms=30000, nsamples=1, mode=mode, budget_s=400))
+        out.append(Case('ambiguity[%s]' % mem, _ambiguity_case(mem), max_paths=64, timeout_ms=30000, nsamples=1, mode=mode, domain_checks=False, budget_s=400))
     out.append(Case('shipped_ambiguity_codes', None, custom=_real_tables_case))
     out.append(Case('read_fasta_crosshair', None, custom=_fasta_crosshair, budget_s=800 if th else 260))
     return out
